@@ -121,7 +121,8 @@ def truth(I, v):
         if v.kind == "bytes":
             return blen(v.t) > 0
         if v.kind == "opaque":
-            return True
+            h = I.E.opaque_truth.get(v.elem)
+            return h(I, v) if h else True
     if isinstance(v, SObj):
         for name in ("__bool__", "__len__"):
             m = v.cls.find_method(name) if isinstance(v.cls, ClassInfo) else None
@@ -433,6 +434,8 @@ class NotImplementedVal:
 # ----------------------------------------------------------------------------- sequences
 def length(I, v, node=None):
     v = sv(I.force(v))
+    if isinstance(v, (set, frozenset)) and any(isinstance(x, Sym) for x in v):
+        raise OutsideSubset("len() of a set with symbolic members")
     if isinstance(v, (str, bytes, list, tuple, dict, set, frozenset)):
         return len(v)
     if isinstance(v, Sym) and v.kind in ("str", "seq"):
@@ -696,7 +699,7 @@ def map_method(I, seq, method, args):
     if decl is None:
         raise OutsideSubset(f"method {method} of opaque sort {sortname} not declared")
     argkinds, ret = decl
-    arg_terms = [opaque_arg_term(I, a) for a in args]
+    arg_terms = [opaque_arg_term(I, a, argkinds[i] if i < len(argkinds) else None) for i, a in enumerate(args)]
     f = z3.Function(f"map!{sortname}.{method}", seq.t.sort(), *[t.sort() for t in arg_terms], z3.SeqSort(elem_sort(ret)))
     r = f(seq.t, *arg_terms)
     I.ctx.assume(z3.Length(r) == z3.Length(seq.t))
@@ -704,7 +707,31 @@ def map_method(I, seq, method, args):
     return Sym(r, "seq", ret)
 
 
-def opaque_arg_term(I, a):
+_OPTSTR = None
+
+
+def optstr_sort():
+    global _OPTSTR
+    if _OPTSTR is None:
+        d = z3.Datatype("OptStr")
+        d.declare("none")
+        d.declare("some", ("v", z3.StringSort()))
+        _OPTSTR = d.create()
+    return _OPTSTR
+
+
+def optstr_term(a):
+    D = optstr_sort()
+    if isinstance(a, SOpt):
+        return z3.If(a.is_none, D.none, D.some(mk_str(a.val)))
+    if a is None:
+        return D.none
+    return D.some(mk_str(a))
+
+
+def opaque_arg_term(I, a, kind=None):
+    if kind == "optstr":
+        return optstr_term(a)
     a = I.force(a)
     if isinstance(a, Sym):
         return a.t
@@ -726,7 +753,7 @@ def call_opaque_method(I, obj, method, args):
     if decl is None:
         raise OutsideSubset(f"method {method} of opaque sort {obj.elem} not declared")
     argkinds, ret = decl
-    arg_terms = [opaque_arg_term(I, a) for a in args]
+    arg_terms = [opaque_arg_term(I, a, argkinds[i] if i < len(argkinds) else None) for i, a in enumerate(args)]
     f = z3.Function(f"{obj.elem}.{method}", obj.t.sort(), *[t.sort() for t in arg_terms], elem_sort(ret))
     return wrap_elem(f(obj.t, *arg_terms), ret)
 
@@ -886,6 +913,8 @@ def isinstance_(I, v, c):
         k = kind_of(v)
         if n == "object":
             return True
+        if k == "opaque" and v.elem in I.E.opaque_pytype:
+            return n == I.E.opaque_pytype[v.elem]
         if n == "str":
             return k == "str"
         if n == "bool":
